@@ -5,6 +5,8 @@ package forwarder
 import (
 	"net"
 
+	"github.com/wmnsk/go-pfcp/ie"
+
 	"github.com/free5gc/go-upf/internal/logger"
 )
 
@@ -12,4 +14,28 @@ import (
 func VNewGtp5gForWrite(conn *net.UDPConn) *Gtp5g {
 	log := logger.FwderLog.WithField("verif", "write")
 	return &Gtp5g{log: log, link: &Gtp5gLink{conn: conn, log: log}}
+}
+
+// VFlowDescAttrs returns the encoded netlink flow-description attributes the driver builds for a rule string.
+func VFlowDescAttrs(s string, swap bool) ([]byte, error) {
+	g := &Gtp5g{log: logger.FwderLog.WithField("verif", "fd")}
+	al, err := g.newFlowDesc(s, swap)
+	if err != nil {
+		return nil, err
+	}
+	b := make([]byte, al.Len())
+	_, err = al.Encode(b)
+	return b, err
+}
+
+// VSdfFilterAttrs returns the encoded SDF-filter attributes the driver builds for an SDF Filter IE.
+func VSdfFilterAttrs(i *ie.IE, srcIf uint8) ([]byte, error) {
+	g := &Gtp5g{log: logger.FwderLog.WithField("verif", "sdf")}
+	al, err := g.newSdfFilter(i, srcIf)
+	if err != nil {
+		return nil, err
+	}
+	b := make([]byte, al.Len())
+	_, err = al.Encode(b)
+	return b, err
 }
